@@ -164,6 +164,28 @@ def check(rep, tier):
         if all(o is not None for o in obs):
             cases.append("(%s, %s, %s, %s, %s)" % (zlit(cfg["seed"]), zlit(N), coq_bool(var), coq_list(coq_ops), coq_list(obs)))
             meta.append((cfg, store, ops))
+    # ---- history with controlled nucleation: run, edit the holding step IN PLACE (duration / rate; no setter involved), run again: the second run is
+    #      the run of a fresh object with the edited program and the same seeds ----
+    for hi in range(2 if tier == "quick" else 8):
+        cfgc = base_cfg(rng, False)
+        cfgc["prog"] = dict(start=0, end=-40, rate=0.1, holds=[{"duration": 300.0, "temp": -6.0}], t_tot=2500.0, dt=10.0); cfgc["cnTemp"] = -6.0
+        try:
+            with impl.quiet():
+                S = fr.build(cfgc, storeStates=None); S.run()
+                extra_d = rng.choice([200.0, 450.0, 37.0])
+                S.opcond.holding[0]["duration"] = 300.0 + extra_d
+                if hi % 2:
+                    S.opcond.cooling["rate"] = 0.05
+                S.run()
+                st2 = {k: np.array(v) for k, v in S.stats.items()}
+                cfg2 = dict(cfgc, prog=dict(cfgc["prog"], holds=[{"duration": 300.0 + extra_d, "temp": -6.0}], rate=0.05 if hi % 2 else 0.1))
+                want2 = reference(cfg2, cfgc["seed"])
+            rep.case(("cn-edit-history", hi, extra_d), nontrivial=True); rep.count("controlled-nucleation program edited in place")
+            if not stats_equal(st2, want2):
+                rep.violation("history-dependence program-edit", "run, holding step edited in place (+%g s%s), run: the statistics differ from a fresh object's with the edited program and the same seeds (%s, cnTemp=-6)"
+                              % (extra_d, ", rate halved" if hi % 2 else "", cfgc["shape"]), dict(config=cfg2, history=["run", "opcond.holding[0]['duration'] += %g" % extra_d, "run"]))
+        except Exception as e:
+            rep.violation("crash %s" % type(e).__name__, "controlled-nucleation edit history raises %r" % e, dict(config=cfgc, error=repr(e)))
     # ---- Snowfall: repetitions vs stand-alone runs, all modes --------------------------------------------------
     combos = [("sequential", None), ("async", 1), ("async", 3), ("sync", 2), ("async", None)] if tier == "quick" else \
         [(h, p) for h in ("sequential", "async", "sync") for p in (1, 2, 3, 5, None)]
